@@ -15,7 +15,7 @@ import (
 	"cuelabs.dev/go/oci/ociregistry"
 	"pgregory.net/rapid"
 
-	"verif/harness/internal/vt"
+	"verif/harness/vt"
 )
 
 func TestMain(m *testing.M) { vt.Main(m) }
